@@ -113,6 +113,8 @@ func setRequestHeaderValue(r *http.Request, name string, val value.Value) {
 	}
 
 	if strings.EqualFold(name, "cookie") {
+		// Replace the cookie which has the same name, AddCookie() only appends
+		removeCookieByName(r, key)
 		c := http.CreateCookie(key, val.String())
 		r.AddCookie(c)
 		return
